@@ -134,6 +134,9 @@ def alloc_kind(v, lst, coord):
     raise Untranslatable(f'dtype expression {d}')
 
 
+import gen_c07
+
+
 class Seq:
     """python statements of a `*_seq` sweep -> one Lean term of type `Option (List K)`.
 
@@ -184,7 +187,7 @@ class Seq:
     # ---- one simple (non-control) statement -> (lets, tr, ty)
     def simple(self, s, tr, ty):
         src = ast.unparse(s)
-        if src in ('ns = list(ns)', 'x = np.asarray(x)'):      # container / scalar normalisation: point-wise identity
+        if src == 'ns = list(ns)' or gen_c07.is_identity_prologue(s):      # container / scalar / dtype normalisation: point-wise identity
             return [], tr, ty
         if isinstance(s, ast.Assign) and len(s.targets) == 1:
             t, v = s.targets[0], s.value
